@@ -248,7 +248,7 @@ fn sig_class(sc: &Scenario, identical: bool) -> String {
     format!(
         "{}:{}{}",
         if identical { "identical_events" } else { "distinct_events" },
-        if any_empty { "one_sided" } else if eq { "equal_len" } else { "unequal_len" },
+        if lens.iter().any(|l| *l > 8) { "long_divergence" } else if any_empty { "one_sided" } else if eq { "equal_len" } else { "unequal_len" },
         match sc.clock {
             ClockPat::Tie => ",tie",
             _ => "",
@@ -1047,6 +1047,14 @@ fn scenarios(tier: Tier, backend: Backend, server_db: bool) -> Vec<Scenario> {
             for o in &orders {
                 out.push(Scenario { edits: vec![x.clone(), y.clone()], order: o.clone(), clock: clocks[0], client_backend: backend, server_db });
             }
+        }
+    }
+    // long divergence: one device is more than one page of the proof scan
+    // (32 commits) ahead when the other device, which has its own offline
+    // event, has to find the common ancestor
+    for n in [31usize, 33, 65] {
+        for o in &orders {
+            out.push(Scenario { edits: vec![vec![Edit::CreateNote; n], vec![Edit::CreateNote]], order: o.clone(), clock: clocks[0], client_backend: backend, server_db });
         }
     }
     if tier == Tier::Quick {
